@@ -5,7 +5,10 @@
 (*   RunLength: every byte as a literal run of one; literal runs of 3 and of *)
 (*              128; every run of equal bytes (also of length 2) as a repeat *)
 (*   ASCIIHex:  upper / mixed case, white space between and inside pairs,    *)
-(*              odd digit count                                              *)
+(*              odd digit count; lines wrapped at odd and even widths (1, 2, *)
+(*              3, 63, 64, 75, 255) with SP, LF, CR LF, TAB, FF or NUL, so   *)
+(*              that white space splits the two digits of a byte at every    *)
+(*              position parity, mixed with case and an odd final digit      *)
 (*   ASCII85:   no 'z' shortcut, white space inside groups                   *)
 (*   LZW:       literals only with a clear code every 7 codes; literals only *)
 (*              with a growing code length (both EarlyChange settings); a    *)
@@ -43,6 +46,11 @@ Small == UNION {[1..n -> {0, 16, 255}] : n \in 0..(IF Big THEN 5 ELSE 4)}
          \cup {Lcg(s, n) : s \in {1, 2}, n \in {7, 8, 9, 39, 40, 79, 80, 81}}
          \cup {[i \in 1..n |-> IF (i \div 4) % 2 = 0 THEN 0 ELSE i] : n \in {8, 11, 12, 13, 84}}
 AHCases == {[fmt |-> "ah", variant |-> v, data |-> x, enc |-> AH!EncVariant(x, v)] : x \in Small, v \in AH!Variants \ {"lower"}}
+AHWrapInputs == IF Big THEN {Lcg(s, n) : s \in {3, 4}, n \in {2, 5, 40, 130}} \cup {[i \in 1..131 |-> (i * 16) % 256]}
+                ELSE {Lcg(3, 5), Lcg(3, 40), Lcg(4, 130)}
+AHWrapCases == {[fmt |-> "ah", variant |-> "wrapped", data |-> x, enc |-> AH!EncWrapped(x, w, ws, mo[1], mo[2])]
+                  : x \in AHWrapInputs, w \in AH!WrapWidths, ws \in AH!WrapSpaces,
+                    mo \in (IF Big THEN BOOLEAN \X BOOLEAN ELSE {<<TRUE, TRUE>>, <<FALSE, FALSE>>})}
 A85Cases == {[fmt |-> "a85", variant |-> v, data |-> x, enc |-> A85!EncVariant(x, v)] : x \in Small, v \in {"noz", "spaced"}}
 
 \* ---- LZW
@@ -65,7 +73,7 @@ PrCases == UNION {{ IF p.pred = 2
                          [fmt |-> "pr", variant |-> "png-rotating", p |-> p, data |-> Lcg(s, 5 * PR!RowBytes(p)),
                           enc |-> PR!PngEncode(p, Lcg(s, 5 * PR!RowBytes(p)), T)] } : p \in PrParams, s \in {0, 1, 2}}
 
-All == SetToSeq(RLCases) \o SetToSeq(AHCases) \o SetToSeq(A85Cases) \o SetToSeq(LzwCases) \o SetToSeq(PrCases)
+All == SetToSeq(RLCases) \o SetToSeq(AHCases) \o SetToSeq(AHWrapCases) \o SetToSeq(A85Cases) \o SetToSeq(LzwCases) \o SetToSeq(PrCases)
 ASSUME ndJsonSerialize(IOEnv.OUT, All)
 VARIABLE x
 Init == x = 0
